@@ -4,6 +4,7 @@ package main
 
 import (
 	"fmt"
+	"strconv"
 	"strings"
 	"unicode"
 )
@@ -244,7 +245,11 @@ func lex(s string) ([]tok, error) {
 			if j >= len(s) {
 				return nil, fmt.Errorf("unterminated string at %d", i)
 			}
-			out = append(out, tok{"str", s[i+1 : j], i})
+			lit := s[i+1 : j]
+			if uq, err := strconv.Unquote("\"" + lit + "\""); err == nil {
+				lit = uq
+			}
+			out = append(out, tok{"str", lit, i})
 			i = j + 1
 		default:
 			ops := []string{"<==>", "==>", "::", ":=", "==", "!=", "<=", ">=", "&&", "||", ".*"}
